@@ -115,7 +115,11 @@ class Translate(BaseTranslateFilter, TranslatableFilter):
         plural = kwargs.pop("plural", None)
         n = _count(kwargs.get("count"))
 
-        if plural is not None and n is not None:
+        if plural is not None:
+            if n is None:
+                # A missing or invalid count defaults to one.
+                n = 1
+
             plural = to_liquid_string(
                 plural,
                 auto_escape=auto_escape and self.auto_escape_message,
